@@ -122,14 +122,23 @@ def run_adaptive(case):
         'scen:' + case['scen'], 'mode:adaptive', 'actors:1']}
     obs = out['obs']
     a = case['actors'][0]
-    planted = {}
+    planted = {}       # every name a run touched
+    unreserved = {}    # ... except those the run reserved by creating info/<name>.trashinfo itself
     for rnd in range(case['rounds'] + 1):
-        for variant in (['none'] if rnd == 0 else ['file', 'dir']):
-            desc = dict(case)
+        if rnd == 0:
+            variants = [('none', 'all')]
+        else:
+            variants = [('file', 'all'), ('dir', 'all')]
+            if any(unreserved.values()):
+                variants = [('file', 'unreserved'), ('dir', 'unreserved')] + variants
+        touched_now = []
+        for variant, which in variants:
+            src = planted if which == 'all' else unreserved
             nodes = list(case['nodes'])
-            for td in sorted(planted):
-                nodes += world.ensure_trash_dirs(td)
-                for j, nm in enumerate(sorted(planted[td])):
+            for td in sorted(src):
+                if src[td]:
+                    nodes += world.ensure_trash_dirs(td)
+                for j, nm in enumerate(sorted(src[td])):
                     if len((nm + '.trashinfo').encode('utf-8', 'surrogateescape')) > 255:
                         continue
                     pay = [{'p': '', 't': 'f', 'c': 'older payload %d' % j}] \
@@ -139,6 +148,7 @@ def run_adaptive(case):
                     nodes += world.trash_nodes(
                         td, nm, world.trashinfo_text('older/%d' % j,
                                                      '2001-01-01T00:00:00'), pay)
+            desc = dict(case)
             desc['nodes'] = nodes
             with world.World(desc) as w:
                 s0 = w.snapshot()
@@ -155,24 +165,34 @@ def run_adaptive(case):
                     return out
                 if rnd:
                     obs['contended_schedules'] = obs.get('contended_schedules', 0) + 1
+                if which == 'unreserved':
+                    obs['adaptive_unreserved_runs'] = obs.get('adaptive_unreserved_runs', 0) + 1
                 judge(case, w, s0, s1, [r], out,
-                      'adaptive round %d variant %s planted %s' % (
-                          rnd, variant, sorted((k, sorted(v)) for k, v in planted.items())),
-                      [])
-                t = touched_names(r.events, w, putcheck.norm_sig(s1))
+                      'adaptive round %d: older %s entries at %s names %s' % (
+                          rnd, variant, which,
+                          sorted((k, sorted(v)) for k, v in src.items())), [])
+                n1 = putcheck.norm_sig(s1)
+                t = touched_names(r.events, w, n1)
+                res = set(k for k in n1 if putcheck.is_info(k) and k not in s0)
+                touched_now.append((t, res))
             if out['violations']:
                 break
-            grew = False
-            for td, names in t.items():
-                cur = planted.setdefault(td, set())
-                if not names <= cur:
-                    grew = True
-                    cur |= names
         if out['violations']:
             break
+        for t, res in touched_now:
+            for td, names in t.items():
+                planted.setdefault(td, set()).update(names)
+                mine = set(putcheck.base(k)[:-len('.trashinfo')] for k in res
+                           if putcheck.trash_of(k) == td)
+                unreserved.setdefault(td, set()).update(names - mine)
+        # names that were unreserved in one run but reserved in another are
+        # ordinary candidates: keep them out of the unreserved set
         obs['adaptive_names_planted'] = sum(len(v) for v in planted.values())
+    if any(unreserved.values()):
+        obs['adaptive_unreserved_names'] = sum(len(v) for v in unreserved.values())
     out['nontrivial'] = True
-    out['sample_obs'] = {'planted': sorted((k, sorted(v)[:6]) for k, v in planted.items())}
+    out['sample_obs'] = {'planted': sorted((k, sorted(v)[:6]) for k, v in planted.items()),
+                         'unreserved': sorted((k, sorted(v)[:6]) for k, v in unreserved.items())}
     out['verdict'] = 'violation' if out['violations'] else 'ok'
     return out
 
